@@ -287,6 +287,9 @@ class Parts(object):
     def oracle(self, case, obs):
         return self._p(case).oracle(case, obs)
 
+    def no_model(self, case):
+        return bool(getattr(self._p(case), "NO_MODEL", False))
+
     def views_equal(self, case, mv, iv):
         p = self._p(case)
         return p.views_equal(case, mv, iv) if hasattr(p, "views_equal") else mv == iv
@@ -308,19 +311,29 @@ class Parts(object):
         return out
 
 
+def _no_model(mod, case):
+    f = getattr(mod, "no_model", None)
+    return bool(f(case)) if f is not None else bool(getattr(mod, "NO_MODEL", False))
+
+
 def evaluate(mod, cases):
-    """run impl + model + oracle on a list of cases"""
+    """run impl + model + oracle on a list of cases (parts with NO_MODEL — the live cross-check of the simulated kernel —
+    have no Lean side: only their oracle judges)"""
     impl = [_safe_impl(mod, c) for c in cases]
-    lines = [mod.model_line(c) for c in cases]
-    raw = run_model(lines)
-    model = [mod.model_parse(c, r) for c, r in zip(cases, raw)]
+    has = [i for i, c in enumerate(cases) if not _no_model(mod, c)]
+    raw = run_model([mod.model_line(cases[i]) for i in has])
+    model = [None] * len(cases)
+    for i, r in zip(has, raw):
+        model[i] = mod.model_parse(cases[i], r)
+    hasset = set(has)
     mism = []
     fails = []
     for i, c in enumerate(cases):
-        io = mod.impl_view(c, impl[i]) if hasattr(mod, "impl_view") else impl[i]
-        same = mod.views_equal(c, model[i], io) if hasattr(mod, "views_equal") else (io == model[i])
-        if not same:
-            mism.append(i)
+        if i in hasset:
+            io = mod.impl_view(c, impl[i]) if hasattr(mod, "impl_view") else impl[i]
+            same = mod.views_equal(c, model[i], io) if hasattr(mod, "views_equal") else (io == model[i])
+            if not same:
+                mism.append(i)
         for f in mod.oracle(c, impl[i]):
             fails.append((i, f))
     return impl, model, mism, fails
